@@ -2100,7 +2100,7 @@ def run_C16(rep, tier, rng):
     pairs, dis = compare_stage_runs(rep, texts[: (150 if tier == "quick" else 1500)], "C16", keys={"tokens"})
     report_disagreements(rep, dis, "tokens of every layout", "C16_tokens")
     return {"evaluations": len(texts), "distinct_nontrivial": kv.distinct_count(texts),
-            "rule": f"each base file (valid, conflicting, or with injected static violations; attributes included) in the plain layout and in {k} random re-layouts (any Unicode White_Space character, LF/CRLF, comments with arbitrary multi-byte content, comment at end of file without newline, no separator where the tokens allow it); results compared with the digest line blanked and every byte position replaced by the index of its token; every re-layout is a non-trivial case",
+            "rule": f"each base file (valid, conflicting, or with injected static violations; attributes included) in the plain layout and in {k} random re-layouts (any Unicode White_Space character, LF/CRLF, comments with arbitrary multi-byte content, comment at end of file without newline, no separator where the tokens allow it) plus, per base of a prefix of the stream, two variants with an inserted comment whose body holds a bare CR, VT, FF, NEL, LS or PS followed by token-like text; results compared with the digest line blanked and every byte position replaced by the index of its token; every re-layout is a non-trivial case",
             "samples": sample(texts[40:]), "base_outcomes": kinds, "model_disagreements": len(dis), "lexical_error_pairs": nlex, "comment_body_variants": ncb}
 
 
